@@ -72,10 +72,12 @@ def construct (initRaises : Bool) (blocks : List Body) (st : Stacks) : Stacks ×
 /-- where a randomize call can be made to fail -/
 inductive Fault
   | none | pre | unsat | internal | post
+  | analysis      -- an exception while the expanded model is analysed: after the builders, before the solve
   deriving DecidableEq, Repr
 
 /-- `Randomizer.do_randomize`: pre_randomize; builders install `n` overrides; the solve creates
-    solver variables; `finally`: rollback + dispose; post_randomize -/
+    solver variables; `finally`: rollback + dispose; post_randomize.  After repair b89875b the
+    `finally` covers everything from the builders on. -/
 def doRandomize (f : Fault) (nOverrides : Nat) (st : Stacks) : Stacks × Bool :=
   match f with
   | .pre => (st, true)                                   -- raised before anything was installed
@@ -86,7 +88,7 @@ def doRandomize (f : Fault) (nOverrides : Nat) (st : Stacks) : Stacks × Bool :=
     -- finally
     let st3 := { st2 with overrides := st2.overrides - nOverrides, staleVars := false }
     match f with
-    | .unsat | .internal => (st3, true)
+    | .unsat | .internal | .analysis => (st3, true)
     | .post => (st3, true)
     | _ => (st3, false)
 
